@@ -409,6 +409,11 @@ class Gen:
                                                   mk_field("t", ("named", "TailFixed", [("leaf", "u8"), ("named", "Foo", [])]), inline=True),
                                                   mk_field("m", ("vec", ("named", "MidFixed", [("leaf", "u8"), ("leaf", "String"), ("leaf", "bool")]))),
                                                   mk_field("z", ("named", "AllFixed", [("leaf", "u8"), ("leaf", "bool")]))], flatten_ok=False, no_ref=True))
+        # tuple struct / tuple variant with two or more fields, all of them skipped
+        self.add(mk_struct("AllSkipT", "tuple", [mk_field("_0", ("leaf", "i32"), skip=True), mk_field("_1", ("leaf", "String"), skip=True)],
+                           flatten_ok=False, no_ref=True))
+        self.add(mk_enum("AllSkipV", [mk_variant("A", "tuple", [mk_field("_0", ("leaf", "i32"), skip=True), mk_field("_1", ("leaf", "bool"), skip=True)]),
+                                      mk_variant("B", "unit")], flatten_ok=False, no_ref=True))
         # containers named by raw identifiers (the TypeScript name is the identifier without `r#`)
         self.add(mk_enum("r#match", [mk_variant("Alpha", "unit"), mk_variant("Beta", "named", [mk_field("x", ("leaf", "u8"))])], flatten_ok=False, no_ref=True))
         self.add(mk_struct("r#struct", "named", [mk_field("x", ("leaf", "u8"))], flatten_ok=False, no_ref=True))
@@ -436,6 +441,14 @@ class Gen:
         self.add(mk_struct("TwoEnums", "named", [mk_field("a", ("named", "Shape", []), flatten=True), mk_field("b", ("named", "OneArm2", []), flatten=True)],
                            flatten_ok=True, no_ref=True))
         self.add(mk_struct("LoneFlat", "named", [mk_field("t", ("named", "TwoEnums", []), flatten=True)], flatten_ok=False, no_ref=True))
+        # the same with documentation that holds an unbalanced parenthesis and an odd number of quotes
+        self.add(mk_enum("DocParen", [mk_variant("Pipe", "named", [mk_field("d", ("leaf", "u8"), docs=[" 5\" pipe :-) and (one open"])]),
+                                      mk_variant("Unknown", "named", [mk_field("z", ("leaf", "bool"), docs=[" closes ) early"])])],
+                         tagging=("internal", "k"), flatten_ok=True, no_ref=True))
+        self.add(mk_struct("TwoEnums2", "named", [mk_field("a", ("named", "DocParen", []), flatten=True), mk_field("b", ("named", "Shape", []), flatten=True)],
+                           flatten_ok=True, no_ref=True))
+        self.add(mk_struct("LoneFlat2", "named", [mk_field("t", ("named", "TwoEnums2", []), flatten=True)], flatten_ok=False, no_ref=True))
+        self.add(mk_struct("LoneFlat3", "named", [mk_field("t", ("named", "DocParen", []), flatten=True)], flatten_ok=False, no_ref=True))
         # enums with ONE live variant, flattened next to other fields: the single arm is itself a union
         self.add(mk_enum("OneArm", [mk_variant("S", "tuple", [mk_field("_0", ("named", "Shape", []), inline=True)])],
                          tagging=("untagged",), flatten_ok=True, no_ref=True))
@@ -605,6 +618,10 @@ class Gen:
         # compositions of library types around user types
         for _ in range(40):
             qs.append(self.ty(2))
+        # arrays around the tuple limit (no values: serde has no impls beyond 32), by name and inline
+        for n in (63, 64, 65):
+            qs.append(("array", n, ("named", "Foo", [])))
+            qs.append(("option", ("array", n, ("leaf", "u8"))))
         return qs
 
 
@@ -658,6 +675,8 @@ class Values:
             vs = [v for v in vs if v is not None]
             return ("vec![%s]" % ", ".join(v[0] for v in vs), "(VSeq %s)" % C.coq_list([v[1] for v in vs]))
         if k == "array":
+            if t[1] > 32:
+                return None      # serde implements Serialize for arrays of up to 32 elements only
             vs = [self.value(t[2], depth + 1) for _ in range(t[1])]
             if any(v is None for v in vs):
                 return None
